@@ -115,7 +115,7 @@ theorem validList_mem (b : Bool) : ∀ (L : List HTree) (t : HTree), validList b
     validTree b t = true
   | [], _, _, ht => by cases ht
   | k :: L, t, hv, ht => by
-    obtain ⟨h1, h2⟩ := validList_cons b k L hv
+    obtain ⟨h1, h2⟩ := fc_validList_cons b k L hv
     rcases List.mem_cons.mp ht with rfl | ht'
     · exact h1
     · exact validList_mem b L t h2 ht'
